@@ -12,6 +12,14 @@ Op lines (decimal integers; names / file names / md5 are integers, the adapter m
   rebuild                         (zip) the manifest `get_manifest(idx, rebuild=True)` builds (= `sourmash sig manifest`)
   locs                            (SBT) number of manifest rows, number of distinct locations
   load generic|standalone|standalone-sql|pathlist|directory
+  mk <slot> <zip|dir|sig|siggz|sqldb> <sessions>      a collection in the command-line workspace (a/b<slot>/...)
+  cat <outfmt> <unique> <fromfile> <slots>            `sourmash sig cat` in-process -> becomes the current collection
+  split <slots>                                       `sourmash sig split --output-dir` -> current collection
+  collect <csv|sql> <abs|rel|cwd|cwdsub> <slots>      `sourmash sig collect [--abspath|--relpath]`; the manifest becomes
+                                                      the current collection, loaded by absolute path from another cwd
+  sigmanifest <slot> <rebuild> <csv|sql>              `sourmash sig manifest [--no-rebuild-manifest]`, rows of the output
+  fileinfo <slot>                                     `sourmash sig fileinfo --json-out`: counts and sketch groups
+  load partial <i,j,..>                               a standalone manifest listing only those manifest rows (mod len)
   kind <file kind>                which registered loaders accept a real file of that kind, and who wins
   conv <x>                        convert_hash_to(x), convert_hash_from(convert_hash_to(x))
 
@@ -103,7 +111,127 @@ def sess_str(sessions):
     return "|".join(",".join(str(i) for i in s) if s else "-" for s in sessions)
 
 
+CLI_FMTS = ["zip", "zip", "dir", "sig", "siggz", "sqldb"]
+
+
+def gen_cli_case(rng, flavour):
+    n = rng.choice([3, 4, 5, 6, 8])
+    sigs, base_scaled = gen_sigs(rng, "cli", n)
+    # same hashes under another name: the md5 groups the command line routes must keep apart
+    for _ in range(rng.choice([1, 1, 2])):
+        a = rng.randrange(len(sigs))
+        b = dict(sigs[a])
+        b["name"] = sigs[a]["name"] % 5 + 1 + rng.choice([0, 5])
+        sigs.append(b)
+    # no exact duplicates among the defined signatures (a slot never holds the same signature twice)
+    seen, uniq = set(), []
+    for sg in sigs:
+        key = (sg["name"], sg["filename"], sg["md5"], sg["ksize"], sg["mol"], sg["num"], sg["scaled"], sg["seed"],
+               sg["track"], tuple(sg["hashes"]))
+        if key not in seen:
+            seen.add(key)
+            uniq.append(sg)
+    sigs = uniq
+    n = len(sigs)
+    lines = [sig_line(i, sg) for i, sg in enumerate(sigs)]
+    nslots = rng.choice([2, 3, 3, 4])
+    fmts = []
+    for k in range(nslots):
+        fmt = rng.choice(CLI_FMTS)
+        fmts.append(fmt)
+        members = rng.sample(range(n), rng.randint(1, min(n, 4)))
+        if fmt in ("zip", "dir", "sqldb") and len(members) >= 2 and rng.random() < 0.5:
+            cut = rng.randint(1, len(members) - 1)
+            sess = [members[:cut], members[cut:]]
+        else:
+            sess = [members]
+        lines.append(f"mk {k} {fmt} " + sess_str(sess))
+    slots = list(range(nslots))
+    pick = lambda: ",".join(str(x) for x in rng.sample(slots, rng.randint(1, nslots)))
+    if flavour == "cli_cat":
+        out = rng.choice(["zip", "zip", "dir", "sig", "siggz", "sqldb"])
+        lines.append(f"cat {out} {int(rng.random() < 0.25)} {int(rng.random() < 0.4)} {pick()}")
+        if out in ("zip", "dir"):
+            lines.append("members")
+        lines += ["manifest", "len", "load generic"]
+        if out in ("zip", "sig", "siggz", "sqldb") and rng.random() < 0.4:
+            lines.append("load standalone")
+    elif flavour == "cli_collect":
+        mode = rng.choice(["abs", "abs", "rel", "rel", "cwd", "cwdsub"])
+        lines.append(f"collect {rng.choice(['csv', 'csv', 'sql'])} {mode} {pick()}")
+        lines += ["manifest", "len", "load generic"]
+    else:
+        lines.append(f"split {pick()}")
+        lines += ["manifest", "len", "load generic"]
+        for k in slots:
+            if fmts[k] in ("zip", "dir") and rng.random() < 0.7:
+                lines.append(f"sigmanifest {k} {rng.randrange(2)} {rng.choice(['csv', 'csv', 'sql'])}")
+            if rng.random() < 0.7:
+                lines.append(f"fileinfo {k}")
+    return lines
+
+
+# two single-hash DNA k=21 sketches whose md5 share the first 8 hex digits (found by search; checked at import)
+PREFIX_TWINS = [(41390, 74148), (45387, 83664)]
+for _a, _b in PREFIX_TWINS:
+    assert md5_of(21, 0, [_a]) >> 96 == md5_of(21, 0, [_b]) >> 96 and md5_of(21, 0, [_a]) != md5_of(21, 0, [_b])
+
+
+def gen_partial_case(rng):
+    """a standalone manifest that lists only PART of a collection and splits an md5 group (same hashes,
+    different names) and, half of the time, an (identifier, md5[:8]) group (same name, md5 differing after 8 digits)"""
+    n = rng.choice([3, 4, 5, 6])
+    sigs, _ = gen_sigs(rng, "zip", n)
+    a = rng.randrange(n)
+    for extra in range(rng.choice([1, 2])):
+        b = dict(sigs[a])
+        b["name"] = sigs[a]["name"] % 5 + 1 + 5 * extra
+        sigs.append(b)
+    twins = None
+    if rng.random() < 0.5:
+        h1, h2 = rng.choice(PREFIX_TWINS)
+        nm = rng.randint(1, 5)
+        for h in (h1, h2):
+            sigs.append(dict(name=nm, filename=0, ksize=21, mol=0, num=0, scaled=1, seed=42, track=False,
+                             hashes=[(h, 1)], md5=md5_of(21, 0, [h])))
+        twins = (len(sigs) - 2, len(sigs) - 1)
+    lines = [sig_line(i, sg) for i, sg in enumerate(sigs)]
+    order = list(range(len(sigs)))
+    rng.shuffle(order)
+    if rng.random() < 0.2:
+        order.append(rng.choice(order))
+    fmt = rng.choice(["zip", "zip", "sigfile", "sqldb"])
+    if fmt == "zip":
+        cut = rng.randint(0, len(order))
+        lines.append("zip " + sess_str([order[:cut], order[cut:]] if 0 < cut < len(order) else [order]))
+    elif fmt == "sigfile":
+        lines.append(f"sigfile {rng.randrange(2)} " + sess_str([order]))
+    else:
+        lines.append("sqldb " + sess_str([order]))
+    lines += ["manifest", "len", "load generic"]
+    group = [pos for pos, i in enumerate(order) if sigs[i]["md5"] == sigs[a]["md5"]]
+    for _ in range(rng.choice([1, 2, 3])):
+        listed = set(rng.sample(range(len(order)), rng.randint(0, len(order) - 1)))
+        if len(group) >= 2:                       # split the group: one in, one out
+            keep = rng.choice(group)
+            drop = rng.choice([g for g in group if g != keep])
+            listed.add(keep)
+            listed.discard(drop)
+        if twins is not None:                     # split the md5-prefix twins as well
+            tp = [pos for pos, i in enumerate(order) if i in twins]
+            if len(tp) == 2:
+                rng.shuffle(tp)
+                listed.add(tp[0])
+                listed.discard(tp[1])
+        lines.append("load partial " + (",".join(str(x) for x in sorted(listed)) if listed else "-"))
+    return lines
+
+
 def gen_case(rng, flavour):
+    if flavour in ("cli_cat", "cli_collect", "cli_misc"):
+        return gen_cli_case(rng, flavour)
+    if flavour == "partial":
+        return gen_partial_case(rng)
     if flavour == "kind":
         return [f"kind {k}" for k in rng.sample(KINDS, 4)] + \
                [f"conv {rng.choice([0, 1, 2 ** 63 - 1, 2 ** 63, 2 ** 63 + 1, U64, rng.randint(0, U64)])}" for _ in range(4)]
@@ -290,6 +418,9 @@ class Coll:
         self.members = None
         self.rows = None
         self.ok = False
+        self.unique_inputs = None      # `sig cat --unique`: the inputs (the choice among equal md5 is order dependent)
+        self.sqlmf = False             # a SQLite-format standalone manifest
+        self.mode = None               # sig collect: abs | rel | cwd | cwdsub
 
     def adds(self):
         """[(session index, position, sig index)] in order, minus (for a single JSON file) overwritten sessions"""
@@ -330,6 +461,7 @@ def must_refuse(sig, coll, accepted_before):
 def oracle(case, impl):
     bad = []
     sigs = {}
+    slots = {}
     coll = None
     expected = None          # list of expected loaded signatures (format restrictions applied)
     stored = None            # the accepted signatures as given
@@ -343,6 +475,127 @@ def oracle(case, impl):
             if out != f"ok md5={s[MD5]} n={len(s[HASHES])}":
                 bad.append((k, "skip:generator", f"signature not built as described: {out}"))
                 return bad
+            continue
+        if w[0] == "mk":
+            if out == "bad-op":
+                continue
+            sfmt = {"sig": "sigfile", "siggz": "sigfile"}.get(w[2], w[2])
+            sc = Coll(sfmt)
+            sc.sessions = parse_sessions(w[3])
+            ref = parse_refused(out)
+            if ref is None:
+                bad.append((k, f"C10:save-failed:{sfmt}", f"saving raised: `{op}` -> {out}"))
+                continue
+            acc = []
+            for si, j, i in sc.adds():
+                sg = sigs[i]
+                need = must_refuse(sg, sc, acc)
+                if (si, j) in ref:
+                    if not need:
+                        bad.append((k, f"C10:refused-valid:{sfmt}", f"signature {i} was refused by {sfmt} without reason"))
+                    continue
+                if need:
+                    bad.append((k, f"C10:accepted-unrepresentable:{sfmt}", f"signature {i} cannot be held by {sfmt}"))
+                acc.append(sg)
+            slots[int(w[1])] = (sfmt, acc)
+            continue
+        if w[0] in ("cat", "split", "collect"):
+            coll = None
+            if out == "bad-op":
+                continue
+            ks = [int(x) for x in w[-1].split(",")]
+            if any(kk not in slots for kk in ks):
+                continue
+            inputs = [sg for kk in ks for sg in slots[kk][1]]
+            if any(not slots[kk][1] and slots[kk][0] in ("sigfile", "dir") for kk in ks):
+                continue                # an empty .sig / directory input: C10.3, judged elsewhere
+            if w[0] == "cat":
+                ofmt = {"sig": "sigfile", "siggz": "sigfile"}.get(w[1], w[1])
+                unique = w[2] == "1"
+                probe = Coll(ofmt)
+                accepted, refusal = [], False
+                seen_md5 = set()
+                for sg in inputs:
+                    if unique and sg[MD5] in seen_md5:
+                        continue
+                    seen_md5.add(sg[MD5])
+                    if must_refuse(sg, probe, accepted):
+                        refusal = True
+                    else:
+                        accepted.append(sg)
+                if parse_refused(out) is None:
+                    if not (ofmt == "sqldb" and refusal and out == "err ValueError"):
+                        bad.append((k, f"C10:cli-cat-failed:{ofmt}", f"`sourmash sig cat -o <{ofmt}>` failed: {out}"))
+                    continue
+                if ofmt == "sqldb" and refusal and not unique:
+                    bad.append((k, "C10:accepted-unrepresentable:sqldb",
+                                "sig cat into a .sqldb went through although an input cannot be held by SqliteIndex"))
+                    continue
+                coll = Coll(ofmt)
+                coll.ok = True
+                keys = []
+                for j, sg in enumerate(inputs):
+                    sigs[("cat", k, j)] = sg
+                    keys.append(("cat", k, j))
+                coll.sessions = [keys]
+                if unique:
+                    coll.unique_inputs = inputs
+                    expected = None
+                else:
+                    expected = list(inputs)
+            elif w[0] == "split":
+                if parse_refused(out) is None:
+                    bad.append((k, "C10:cli-split-failed", f"`sourmash sig split` failed: {out}"))
+                    continue
+                coll = Coll("split")
+                coll.ok = True
+                coll.sessions = [[]]
+                expected = list(inputs)
+            else:
+                if parse_refused(out) is None:
+                    bad.append((k, "C10:cli-collect-failed", f"`sourmash sig collect` failed: {out}"))
+                    continue
+                coll = Coll("mf")
+                coll.ok = True
+                coll.sessions = [[]]
+                coll.sqlmf = w[1] == "sql"
+                coll.mode = w[2]
+                coll.groups = [list(slots[kk][1]) for kk in ks]
+                expected = list(inputs)
+            stored = expected
+            continue
+        if w[0] == "sigmanifest":
+            kk = int(w[1])
+            it = items_of(out)
+            if kk not in slots or out == "bad-op":
+                continue
+            sfmt, acc = slots[kk]
+            if it is None:
+                bad.append((k, f"C10:cli-manifest-failed:{sfmt}", f"`sourmash sig manifest` failed: {out}"))
+                continue
+            rows = [tuple(int(x) if x.lstrip('-').isdigit() else x for x in r.split("|")[1:]) for r in it]
+            bad += judge_rows(k, sfmt, rows, acc, rebuilt=(w[2] == "1"), what="sig manifest")
+            continue
+        if w[0] == "fileinfo":
+            kk = int(w[1])
+            it = items_of(out)
+            if kk not in slots or out == "bad-op":
+                continue
+            sfmt, acc = slots[kk]
+            if it is None:
+                if not (sfmt in ("sigfile", "dir") and not acc):
+                    bad.append((k, f"C10:cli-fileinfo-failed:{sfmt}", f"`sourmash sig fileinfo` failed: {out}"))
+                continue
+            want = [f"n={len(acc)}", f"total={sum(len(sg[HASHES]) for sg in acc)}"]
+            grp = {}
+            for sg in acc:
+                key = (sg[KSIZE], sg[MOL], sg[SCALED], sg[NUM], int(sg[TRACK]))
+                c, nh = grp.get(key, (0, 0))
+                grp[key] = (c + 1, nh + len(sg[HASHES]))
+            want += [f"g:{a}/{b}/{c}/{d}/{e}/{v[0]}/{v[1]}" for (a, b, c, d, e), v in grp.items()]
+            if sorted(want) != sorted(it):
+                bad.append((k, f"C10:fileinfo-counts:{sfmt}",
+                            f"sig fileinfo reports {sorted(it)[:4]} for a collection holding {sorted(want)[:4]}"))
             continue
         if w[0] in ("zip", "dir", "sqldb", "sigfile", "sbt", "lca"):
             coll = Coll(w[0])
@@ -392,7 +645,7 @@ def oracle(case, impl):
                 continue
             it = items_of(out)
             if it is None:
-                if not (fmt in ("sigfile", "dir") and not expected and out == "err ValueError"):
+                if not (fmt in ("sigfile", "dir", "split") and not expected and out == "err ValueError"):
                     bad.append((k, f"C10:manifest-unreadable:{fmt}", f"manifest could not be read: {out}"))
                 continue
             rows = []
@@ -400,8 +653,18 @@ def oracle(case, impl):
                 f = r.split("|")
                 rows.append((f[0],) + tuple(int(x) if x.lstrip('-').isdigit() else x for x in f[1:]))
             coll.rows = rows
+            if coll.unique_inputs is not None:
+                continue                # judged on the reload
             want = Counter(row_of(s) for s in expected)
             got = Counter(r[1:] for r in rows)
+            if want != got and coll.sqlmf:
+                miss = list((want - got).elements())
+                kept = {r[1] for r in rows}
+                if not (got - want) and all(m[0] in kept for m in miss):
+                    bad.append((k, "C10:sql-manifest-drops-same-md5-rows",
+                                f"the SQLite-format manifest written by sig collect lacks the rows {miss[:2]} "
+                                "(one row per (location, md5): UNIQUE + INSERT OR IGNORE)"))
+                    continue
             if want != got:
                 bad.append((k, f"C10:manifest-columns:{fmt}",
                             f"manifest rows differ from the stored signatures: missing {list((want - got).elements())[:2]} "
@@ -458,11 +721,62 @@ def oracle(case, impl):
             continue
         if w[0] == "len":
             continue            # judged together with the load below
+        if w[0] == "load" and w[1] == "partial":
+            it = items_of(out)
+            if out == "ok -" or expected is None:
+                continue
+            if it is None or not it or not it[0].startswith("len="):
+                bad.append((k, f"C10:load-failed:{fmt}:partial", f"reloading through a partial manifest raised: {out}"))
+                continue
+            n_listed = int(it[0][4:])
+            loaded = [parse_sig_item(x) for x in it[1:]]
+            idxs = [int(x) for x in w[2].split(",")] if w[2] != "-" else []
+            listed = [expected[i % len(expected)] for i in idxs] if expected else []
+            distinct = [expected[i] for i in sorted({i % len(expected) for i in idxs})] if expected else []
+            lw, lg = Counter(distinct), Counter(loaded)
+            keyp = lambda sg: (sg[NAME], sg[MD5])       # a manifest row stands for (name, md5)
+            listed_keys = {keyp(sg) for sg in listed}
+            extra = [sg for sg in (lg - lw).elements() if keyp(sg) not in listed_keys]
+            miss = [sg for sg in (lw - lg).elements() if not (fmt == "zip" and lg[sg] >= 1)]
+            if extra:
+                bad.append((k, "C10:partial-manifest-returns-unlisted",
+                            f"a standalone manifest listing {len(listed)} of the collection's signatures returns unlisted ones: "
+                            f"{[key3(sg) for sg in extra][:2]} (not the name and md5 of any listed row)"))
+            if miss:
+                bad.append((k, f"C10:partial-manifest-load-mismatch:{fmt}",
+                            f"listed but not returned: {[key3(sg) for sg in miss][:2]}"))
+            if n_listed != len(listed):
+                bad.append((k, f"C10:partial-manifest-len:{fmt}", f"len() = {n_listed} for a manifest of {len(listed)} rows"))
+            continue
+        if w[0] == "load" and coll.unique_inputs is not None:
+            it = items_of(out)
+            if it is None:
+                if fmt in ("sigfile", "dir") and not coll.unique_inputs and out == "err ValueError":
+                    bad.append((k, f"C10:empty-collection-unloadable:{fmt}",
+                                f"an empty set of signatures saved as {fmt} cannot be reloaded ({w[1]}): {out}"))
+                else:
+                    bad.append((k, f"C10:load-failed:{fmt}:{w[1]}", f"reloading ({w[1]}) raised: {out}"))
+                continue
+            loaded = [parse_sig_item(x) for x in it]
+            inp = Counter(coll.unique_inputs)
+            md5s = [sg[MD5] for sg in loaded]
+            if any(sg not in inp for sg in loaded) or len(set(md5s)) != len(md5s) or \
+                    set(md5s) != {sg[MD5] for sg in coll.unique_inputs}:
+                bad.append((k, f"C10:cli-cat-unique:{fmt}",
+                            "sig cat --unique must keep exactly one of the input signatures per md5"))
+            continue
+        if w[0] == "load" and fmt == "mf" and coll.mode == "cwdsub":
+            if items_of(out) is None and out == "err ValueError":
+                bad.append((k, "C10:collect-default-locations-relative-to-cwd",
+                            "sig collect without --abspath/--relpath writes locations relative to the working directory, "
+                            "StandaloneManifestIndex resolves them relative to the manifest's directory: a manifest written "
+                            "into another directory cannot be loaded (ValueError, loud)"))
+                continue
         if w[0] == "load":
             it = items_of(out)
             if it is None:
-                if fmt in ("sigfile", "dir") and not expected and out == "err ValueError":
-                    bad.append((k, f"C10:empty-collection-unloadable:{fmt}",
+                if fmt in ("sigfile", "dir", "split") and not expected and out == "err ValueError":
+                    bad.append((k, f"C10:empty-collection-unloadable:{'dir' if fmt == 'split' else fmt}",
                                 f"an empty set of signatures saved as {fmt} cannot be reloaded ({w[1]}): {out} "
                                 "(refused loudly: a JSON file holding [] is 'too short', a directory without files has 'no signatures')"))
                 else:
@@ -491,13 +805,13 @@ def oracle(case, impl):
                         bad.append(classify_loss(kk, coll, sigs, expected, loaded,
                                                  f"len() = {lo[3:]} but {len(loaded)} signatures are returned"))
                     break
-                if case[kk].split()[0] in ("zip", "dir", "sqldb", "sigfile", "sbt", "lca"):
+                if case[kk].split()[0] in ("zip", "dir", "sqldb", "sigfile", "sbt", "lca", "cat", "split", "collect", "mk"):
                     break
             # manifest rows <-> returned signatures
             if coll.rows is not None and w[1] == "generic":
                 a = Counter(r[1:] for r in coll.rows)
                 b = Counter(row_of(s) for s in loaded)
-                if a != b and want == got:
+                if a != b and want == got and not coll.sqlmf:
                     bad.append((k, f"C10:manifest-vs-members:{fmt}", "manifest rows and returned signatures differ"))
             continue
     # de-duplicate
@@ -509,9 +823,29 @@ def oracle(case, impl):
     return out
 
 
+def judge_rows(k, fmt, rows, acc, rebuilt, what):
+    """rows (without location) of a manifest written for a collection holding `acc`"""
+    want = Counter(row_of(sg) for sg in acc)
+    got = Counter(rows)
+    if want == got:
+        return []
+    miss = list((want - got).elements())
+    extra = list((got - want).elements())
+    kept = {r[0] for r in rows}
+    if fmt == "zip" and rebuilt and not extra and miss and all(m[0] in kept for m in miss):
+        return [(k, "C10:zip-rebuilt-manifest-skips-suffixed-members",
+                 f"the manifest rebuilt from the zip ({what}) lacks {miss[:2]}: members named <md5>.sig.gz_<n> "
+                 "(same md5 as an earlier member) do not end in .sig/.sig.gz and are never opened")]
+    return [(k, f"C10:manifest-columns:{fmt}:{what.replace(' ', '-')}",
+             f"{what} output differs from the stored signatures: missing {miss[:2]} unexpected {extra[:2]}")]
+
+
 def classify_loss(k, coll, sigs, expected, loaded, msg):
     """give a loss its specific signature"""
     fmt = coll.fmt
+    if coll.sqlmf and msg.startswith("len()"):
+        return (k, "C10:sql-manifest-drops-same-md5-rows",
+                msg + " (the SQLite-format manifest lacks rows: one per (location, md5))")
     if loaded is None:
         # two manifest rows on one member
         exp = Counter(expected)
@@ -531,7 +865,7 @@ def classify_loss(k, coll, sigs, expected, loaded, msg):
     want, got = Counter(expected), Counter(loaded)
     miss = want - got
     extra = got - want
-    if "(standalone-sql)" in msg and not extra and miss:
+    if ("(standalone-sql)" in msg or coll.sqlmf) and not extra and miss:
         kept_md5 = {s[MD5] for s in loaded}
         gone = [s for s in miss if got[s] == 0]
         fewer = [s for s in miss if got[s] > 0]
@@ -585,7 +919,7 @@ def classify(case, impl, model, k):
     fmt = "?"
     for l in case[:k + 1]:
         w = l.split()
-        if w and w[0] in ("zip", "dir", "sqldb", "sigfile", "sbt", "lca"):
+        if w and w[0] in ("zip", "dir", "sqldb", "sigfile", "sbt", "lca", "cat", "split", "collect"):
             fmt = w[0]
     op = case[k].split()[0] if k < len(case) and case[k].split() else "?"
     if op in ("kind", "conv", "sig"):
